@@ -39,6 +39,7 @@ def rm_worktree(d):
 
 
 def confirm(mdir):
+    mdir = os.path.abspath(mdir)
     wt = mk_worktree()
     try:
         res = {}
@@ -63,6 +64,7 @@ def confirm(mdir):
 
 
 def check(mdir, prop, tier="quick"):
+    mdir = os.path.abspath(mdir)
     wt = mk_worktree()
     try:
         p = sh(["git", "-C", wt, "apply", os.path.abspath(os.path.join(mdir, "patch.diff"))])
